@@ -8,12 +8,16 @@ package c12
 // The result is a display list in canvas millimetres.
 
 import (
+	"bytes"
+	"compress/zlib"
 	"fmt"
+	"io"
 	"math"
 	"strconv"
 	"strings"
 
 	"verif/internal/oracle"
+	"verif/internal/pdfread"
 )
 
 type psKind int
@@ -26,6 +30,9 @@ const (
 	psArray        // [ ... ] (built at run time) or a matrix
 	psMark
 	psString
+	psBool
+	psDict // << ... >>
+	psFile // currentfile, possibly behind decoding filters (names in arr, innermost first)
 )
 
 type psObj struct {
@@ -33,6 +40,7 @@ type psObj struct {
 	num  float64
 	name string
 	arr  []psObj
+	dict map[string]psObj
 }
 
 func (o psObj) String() string {
@@ -53,109 +61,123 @@ func (o psObj) String() string {
 	return "(string)"
 }
 
-// psTokenize splits the program into objects; procedures are nested token lists.
-func psTokenize(src string) ([]psObj, error) {
-	pos := 0
-	isWS := func(c byte) bool { return c == ' ' || c == '\t' || c == '\n' || c == '\r' || c == '\f' || c == 0 }
-	isDelim := func(c byte) bool { return strings.IndexByte("()<>[]{}/%", c) >= 0 }
-	var parse func(depth int) ([]psObj, error)
-	parse = func(depth int) ([]psObj, error) {
-		var out []psObj
-		for {
-			for pos < len(src) && isWS(src[pos]) {
-				pos++
+// psScanner reads the program one object at a time (procedures as nested token lists), so that
+// an operator reading from currentfile (image data) can take over at the scanner's position.
+type psScanner struct {
+	src string
+	pos int
+}
+
+func psIsWS(c byte) bool {
+	return c == ' ' || c == '\t' || c == '\n' || c == '\r' || c == '\f' || c == 0
+}
+func psIsDelim(c byte) bool { return strings.IndexByte("()<>[]{}/%", c) >= 0 }
+
+// next returns the next object; eof reports the end of the source; closeBrace a '}' (only legal
+// inside a procedure body).
+func (sc *psScanner) next() (o psObj, eof, closeBrace bool, err error) {
+	src := sc.src
+	for {
+		for sc.pos < len(src) && psIsWS(src[sc.pos]) {
+			sc.pos++
+		}
+		if sc.pos >= len(src) {
+			return psObj{}, true, false, nil
+		}
+		c := src[sc.pos]
+		switch {
+		case c == '%':
+			for sc.pos < len(src) && src[sc.pos] != '\n' && src[sc.pos] != '\r' {
+				sc.pos++
 			}
-			if pos >= len(src) {
-				if depth > 0 {
-					return nil, fmt.Errorf("unterminated procedure")
-				}
-				return out, nil
-			}
-			c := src[pos]
-			switch {
-			case c == '%':
-				for pos < len(src) && src[pos] != '\n' && src[pos] != '\r' {
-					pos++
-				}
-			case c == '{':
-				pos++
-				body, err := parse(depth + 1)
+			continue
+		case c == '{':
+			sc.pos++
+			var body []psObj
+			for {
+				e, eof, cb, err := sc.next()
 				if err != nil {
-					return nil, err
+					return psObj{}, false, false, err
 				}
-				out = append(out, psObj{kind: psProc, arr: body})
-			case c == '}':
-				pos++
-				if depth == 0 {
-					return nil, fmt.Errorf("unmatched } at offset %d", pos-1)
+				if eof {
+					return psObj{}, false, false, fmt.Errorf("unterminated procedure")
 				}
-				return out, nil
-			case c == '[' || c == ']':
-				pos++
-				out = append(out, psObj{kind: psName, name: string(c)})
-			case c == '<' && pos+1 < len(src) && src[pos+1] == '<':
-				pos += 2
-				out = append(out, psObj{kind: psName, name: "<<"})
-			case c == '>' && pos+1 < len(src) && src[pos+1] == '>':
-				pos += 2
-				out = append(out, psObj{kind: psName, name: ">>"})
-			case c == '(':
-				d := 0
-				i := pos
-				for ; i < len(src); i++ {
-					if src[i] == '\\' {
-						i++
-					} else if src[i] == '(' {
-						d++
-					} else if src[i] == ')' {
-						d--
-						if d == 0 {
-							break
-						}
+				if cb {
+					break
+				}
+				body = append(body, e)
+			}
+			return psObj{kind: psProc, arr: body}, false, false, nil
+		case c == '}':
+			sc.pos++
+			return psObj{}, false, true, nil
+		case c == '[' || c == ']':
+			sc.pos++
+			return psObj{kind: psName, name: string(c)}, false, false, nil
+		case c == '<' && sc.pos+1 < len(src) && src[sc.pos+1] == '<':
+			sc.pos += 2
+			return psObj{kind: psName, name: "<<"}, false, false, nil
+		case c == '>' && sc.pos+1 < len(src) && src[sc.pos+1] == '>':
+			sc.pos += 2
+			return psObj{kind: psName, name: ">>"}, false, false, nil
+		case c == '(':
+			d := 0
+			i := sc.pos
+			for ; i < len(src); i++ {
+				if src[i] == '\\' {
+					i++
+				} else if src[i] == '(' {
+					d++
+				} else if src[i] == ')' {
+					d--
+					if d == 0 {
+						break
 					}
 				}
-				if i >= len(src) {
-					return nil, fmt.Errorf("unterminated string")
-				}
-				out = append(out, psObj{kind: psString, name: src[pos+1 : i]})
-				pos = i + 1
-			case c == '<':
-				i := strings.IndexByte(src[pos:], '>')
-				if i < 0 {
-					return nil, fmt.Errorf("unterminated hex string")
-				}
-				out = append(out, psObj{kind: psString, name: src[pos+1 : pos+i]})
-				pos += i + 1
-			case c == '/':
-				i := pos + 1
-				for i < len(src) && !isWS(src[i]) && !isDelim(src[i]) {
-					i++
-				}
-				out = append(out, psObj{kind: psLit, name: src[pos+1 : i]})
-				pos = i
-			case c == ')' || c == '>':
-				return nil, fmt.Errorf("unexpected %q at offset %d", c, pos)
-			default:
-				i := pos
-				for i < len(src) && !isWS(src[i]) && !isDelim(src[i]) {
-					i++
-				}
-				tok := src[pos:i]
-				pos = i
-				// §3.2.2: a token that is a valid number is a number, otherwise an executable name.
-				// Radix numbers (16#FF) are not interpreted (never expected here).
-				if v, err := strconv.ParseFloat(tok, 64); err == nil && !strings.ContainsAny(tok, "xXpPnNiI_") {
-					out = append(out, psObj{kind: psNum, num: v})
-				} else {
-					out = append(out, psObj{kind: psName, name: tok})
-				}
 			}
+			if i >= len(src) {
+				return psObj{}, false, false, fmt.Errorf("unterminated string")
+			}
+			o := psObj{kind: psString, name: src[sc.pos+1 : i]}
+			sc.pos = i + 1
+			return o, false, false, nil
+		case c == '<':
+			i := strings.IndexByte(src[sc.pos:], '>')
+			if i < 0 {
+				return psObj{}, false, false, fmt.Errorf("unterminated hex string")
+			}
+			o := psObj{kind: psString, name: src[sc.pos+1 : sc.pos+i]}
+			sc.pos += i + 1
+			return o, false, false, nil
+		case c == '/':
+			i := sc.pos + 1
+			for i < len(src) && !psIsWS(src[i]) && !psIsDelim(src[i]) {
+				i++
+			}
+			o := psObj{kind: psLit, name: src[sc.pos+1 : i]}
+			sc.pos = i
+			return o, false, false, nil
+		case c == ')' || c == '>':
+			return psObj{}, false, false, fmt.Errorf("unexpected %q at offset %d", c, sc.pos)
+		default:
+			i := sc.pos
+			for i < len(src) && !psIsWS(src[i]) && !psIsDelim(src[i]) {
+				i++
+			}
+			tok := src[sc.pos:i]
+			sc.pos = i
+			// §3.2.2: a token that is a valid number is a number, otherwise an executable name.
+			// Radix numbers (16#FF) are not interpreted (never expected here).
+			if v, err := strconv.ParseFloat(tok, 64); err == nil && !strings.ContainsAny(tok, "xXpPnNiI_") {
+				return psObj{kind: psNum, num: v}, false, false, nil
+			}
+			return psObj{kind: psName, name: tok}, false, false, nil
 		}
 	}
-	return parse(0)
 }
 
 type psGState struct {
+	space    string // colour space name set by setcolorspace ("" = DeviceGray/RGB by the colour operators)
 	ctm      aff
 	rgb      [3]float64
 	width    float64
@@ -183,6 +205,7 @@ func (g psGState) clone() psGState {
 }
 
 type psInterp struct {
+	sc     *psScanner
 	dl     *displayList
 	stack  []psObj
 	dict   map[string]psObj
@@ -399,7 +422,7 @@ func (in *psInterp) exec(prog []psObj, depth int) {
 			return
 		}
 		switch o.kind {
-		case psNum, psLit, psString, psProc:
+		case psNum, psLit, psString, psProc, psBool, psDict, psFile, psArray:
 			// a procedure met directly is pushed (§3.5.3), it runs only when called by name
 			in.stack = append(in.stack, o)
 			continue
@@ -494,6 +517,62 @@ func (in *psInterp) op(name string) {
 		}
 		arr := append([]psObj(nil), in.stack[i+1:]...)
 		in.stack = append(in.stack[:i], psObj{kind: psArray, arr: arr})
+	case "true", "false":
+		b := psObj{kind: psBool, name: name}
+		if name == "true" {
+			b.num = 1
+		}
+		in.stack = append(in.stack, b)
+	case "<<":
+		in.stack = append(in.stack, psObj{kind: psMark, name: "<<"})
+	case ">>":
+		i := len(in.stack) - 1
+		for i >= 0 && in.stack[i].kind != psMark {
+			i--
+		}
+		if i < 0 || (len(in.stack)-1-i)%2 != 0 {
+			in.fail("ps-unmatchedmark", ">> without << or with an odd number of objects")
+			return
+		}
+		d := map[string]psObj{}
+		for k := i + 1; k+1 < len(in.stack); k += 2 {
+			if in.stack[k].kind != psLit {
+				in.fail("ps-interpreter-limit", "dictionary key %v is not a literal name", in.stack[k])
+				return
+			}
+			d[in.stack[k].name] = in.stack[k+1]
+		}
+		in.stack = append(in.stack[:i], psObj{kind: psDict, dict: d})
+	case "currentfile":
+		in.stack = append(in.stack, psObj{kind: psFile})
+	case "filter":
+		nm, ok1 := in.pop()
+		srcObj, ok2 := in.pop()
+		if !ok1 || !ok2 {
+			return
+		}
+		if nm.kind != psLit || srcObj.kind != psFile {
+			in.fail("ps-typecheck", "filter: operands %v %v", srcObj, nm)
+			return
+		}
+		if nm.name != "ASCII85Decode" && nm.name != "FlateDecode" && nm.name != "ASCIIHexDecode" {
+			in.fail("ps-interpreter-limit", "filter /%s is not interpreted", nm.name)
+			return
+		}
+		f := psObj{kind: psFile, arr: append(append([]psObj(nil), srcObj.arr...), nm)}
+		in.stack = append(in.stack, f)
+	case "setcolorspace":
+		if o, ok := in.pop(); ok {
+			if o.kind != psLit || (o.name != "DeviceRGB" && o.name != "DeviceGray") {
+				in.fail("ps-interpreter-limit", "setcolorspace %v", o)
+				return
+			}
+			// PLRM: setcolorspace also sets the current colour to the space's initial value (black)
+			g.space = o.name
+			g.rgb = [3]float64{}
+		}
+	case "image":
+		in.image()
 	// ---- coordinate system
 	case "matrix":
 		in.stack = append(in.stack, matrixObj(ident))
@@ -603,12 +682,14 @@ func (in *psInterp) op(name string) {
 		g.dashes, g.phase = d, off[0]
 	case "setrgbcolor":
 		if v, ok := in.popNums(3, name); ok {
+			g.space = "DeviceRGB"
 			for i := range v {
 				g.rgb[i] = math.Max(0, math.Min(1, v[i]))
 			}
 		}
 	case "setgray":
 		if v, ok := in.popNums(1, name); ok {
+			g.space = "DeviceGray"
 			x := math.Max(0, math.Min(1, v[0]))
 			g.rgb = [3]float64{x, x, x}
 		}
@@ -747,12 +828,21 @@ func interpretPS(data []byte) (dl *displayList, h psHeader, unitsOK bool) {
 		dl.tally("ps-geometry-compared-relative-to-the-bounding-box")
 		in.toMM = aff{CW / bw, 0, 0, CH / bh, -h.bbox[0] * CW / bw, -h.bbox[1] * CH / bh}
 	}
-	prog, err := psTokenize(src)
-	if err != nil {
-		dl.problem("ps-syntax", "%v", err)
-		return dl, h, unitsOK
+	in.sc = &psScanner{src: src}
+	for !in.failed {
+		o, eof, cb, err := in.sc.next()
+		if err == nil && cb {
+			err = fmt.Errorf("unmatched } at offset %d", in.sc.pos-1)
+		}
+		if err != nil {
+			dl.problem("ps-syntax", "%v", err)
+			return dl, h, unitsOK
+		}
+		if eof {
+			break
+		}
+		in.exec([]psObj{o}, 0)
 	}
-	in.exec(prog, 0)
 	if len(in.stack) != 0 && !in.failed {
 		dl.tally("ps-operands-left-on-the-stack")
 	}
@@ -763,4 +853,175 @@ func interpretPS(data []byte) (dl *displayList, h psHeader, unitsOK bool) {
 		dl.tally("ps-no-showpage-in-a-non-EPS-program")
 	}
 	return dl, h, unitsOK
+}
+
+// image: the dictionary form (PLRM 4.10.5, image dictionaries of ImageType 1). The samples come
+// from currentfile through the decoding filters, starting after the white-space character that
+// ends the "image" token. ImageMatrix maps user space to image space, in which sample (i,j) of
+// the data (row j, column i, rows in the order of the data) is the unit square at (i,j).
+func (in *psInterp) image() {
+	g := &in.gs
+	d, ok := in.pop()
+	if !ok {
+		return
+	}
+	if d.kind != psDict {
+		in.fail("ps-interpreter-limit", "image with operand %v (only the dictionary form is interpreted)", d)
+		return
+	}
+	num := func(k string) (float64, bool) {
+		o, ok := d.dict[k]
+		return o.num, ok && o.kind == psNum
+	}
+	if t, ok := num("ImageType"); !ok || t != 1 {
+		in.fail("ps-interpreter-limit", "image dictionary /ImageType %v", d.dict["ImageType"])
+		return
+	}
+	wf, ok1 := num("Width")
+	hf, ok2 := num("Height")
+	bpc, ok3 := num("BitsPerComponent")
+	if !ok1 || !ok2 || !ok3 || wf < 1 || hf < 1 || wf != math.Floor(wf) || hf != math.Floor(hf) {
+		in.fail("ps-rangecheck", "image dictionary: /Width %v /Height %v /BitsPerComponent %v", d.dict["Width"], d.dict["Height"], d.dict["BitsPerComponent"])
+		return
+	}
+	if bpc != 8 {
+		in.fail("ps-interpreter-limit", "image with %v bits per component", bpc)
+		return
+	}
+	ncomp := 0
+	switch g.space {
+	case "DeviceRGB":
+		ncomp = 3
+	case "DeviceGray", "":
+		ncomp = 1
+	}
+	dec, okd := d.dict["Decode"]
+	if !okd || dec.kind != psArray || len(dec.arr) != 2*ncomp {
+		in.fail("ps-rangecheck", "image dictionary: /Decode has %d elements, the colour space %q needs %d", len(dec.arr), g.space, 2*ncomp)
+		return
+	}
+	for k, e := range dec.arr {
+		if e.kind != psNum || e.num != float64(k%2) {
+			in.fail("ps-interpreter-limit", "image /Decode other than [0 1 ...]")
+			return
+		}
+	}
+	imo, okm := d.dict["ImageMatrix"]
+	im, okm2 := objMatrix(imo)
+	if !okm || !okm2 {
+		in.fail("ps-typecheck", "image dictionary: /ImageMatrix %v", imo)
+		return
+	}
+	if mds, has := d.dict["MultipleDataSources"]; has && mds.num != 0 {
+		in.fail("ps-interpreter-limit", "MultipleDataSources")
+		return
+	}
+	ds, okf := d.dict["DataSource"]
+	if !okf || ds.kind != psFile {
+		in.fail("ps-interpreter-limit", "image /DataSource %v (only currentfile behind filters is interpreted)", ds)
+		return
+	}
+	// raw bytes: after exactly one white-space character (CR LF counts as one)
+	sc := in.sc
+	if sc.pos < len(sc.src) && psIsWS(sc.src[sc.pos]) {
+		if sc.src[sc.pos] == '\r' && sc.pos+1 < len(sc.src) && sc.src[sc.pos+1] == '\n' {
+			sc.pos++
+		}
+		sc.pos++
+	}
+	w, h := int(wf), int(hf)
+	need := w * h * ncomp
+	var data []byte
+	if len(ds.arr) == 0 {
+		if sc.pos+need > len(sc.src) {
+			in.fail("ps-ioerror", "image: %d bytes of binary data needed, %d left", need, len(sc.src)-sc.pos)
+			return
+		}
+		data = []byte(sc.src[sc.pos : sc.pos+need])
+		sc.pos += need
+	} else {
+		// the innermost filter decides where the encoded data ends in the file
+		raw := []byte(nil)
+		switch ds.arr[0].name {
+		case "ASCII85Decode":
+			e := strings.Index(sc.src[sc.pos:], "~>")
+			if e < 0 {
+				in.fail("ps-ioerror", "image: ASCII85 data without ~>")
+				return
+			}
+			b, err := pdfread.ASCII85Decode([]byte(sc.src[sc.pos : sc.pos+e+2]))
+			if err != nil {
+				in.fail("ps-ioerror", "image: ASCII85Decode: %v", err)
+				return
+			}
+			raw = b
+			sc.pos += e + 2
+		case "ASCIIHexDecode":
+			e := strings.IndexByte(sc.src[sc.pos:], '>')
+			if e < 0 {
+				in.fail("ps-ioerror", "image: ASCIIHex data without >")
+				return
+			}
+			b, err := pdfread.ASCIIHexDecode([]byte(sc.src[sc.pos : sc.pos+e+1]))
+			if err != nil {
+				in.fail("ps-ioerror", "image: ASCIIHexDecode: %v", err)
+				return
+			}
+			raw = b
+			sc.pos += e + 1
+		default:
+			in.fail("ps-interpreter-limit", "image data behind a binary /%s filter directly on currentfile", ds.arr[0].name)
+			return
+		}
+		for _, f := range ds.arr[1:] {
+			switch f.name {
+			case "FlateDecode":
+				zr, err := zlib.NewReader(bytes.NewReader(raw))
+				if err != nil {
+					in.fail("ps-ioerror", "image: FlateDecode: %v", err)
+					return
+				}
+				b, err := io.ReadAll(zr)
+				if err != nil {
+					in.fail("ps-ioerror", "image: FlateDecode: %v", err)
+					return
+				}
+				raw = b
+			default:
+				in.fail("ps-interpreter-limit", "image data filter chain %v", ds.arr)
+				return
+			}
+		}
+		if len(raw) < need {
+			in.fail("ps-ioerror", "image: %d bytes of sample data, %d x %d x %d = %d needed", len(raw), w, h, ncomp, need)
+			return
+		}
+		if len(raw) > need {
+			in.dl.tally("ps-image-data-longer-than-needed")
+		}
+		data = raw[:need]
+	}
+	pix := make([]colour, w*h)
+	for k := range pix {
+		if ncomp == 3 {
+			pix[k] = colour{float64(data[3*k]) / 255, float64(data[3*k+1]) / 255, float64(data[3*k+2]) / 255, 1}
+		} else {
+			v := float64(data[k]) / 255
+			pix[k] = colour{v, v, v, 1}
+		}
+	}
+	imInv, ok := im.inv()
+	if !ok {
+		in.fail("ps-undefinedresult", "image: singular /ImageMatrix")
+		return
+	}
+	// image space -> user space -> device space -> mm
+	total := in.toMM.mul(g.ctm).mul(imInv)
+	ra, ok := newRaster(w, h, pix, total, 1, fmt.Sprintf("%dx%d %s", w, h, g.space))
+	if !ok {
+		in.fail("ps-undefinedresult", "image under a singular CTM")
+		return
+	}
+	in.dl.items = append(in.dl.items, item{role: "image", reg: ra.quad("ps"), paint: paint{img: ra},
+		src: fmt.Sprintf("CTM %s <</ImageMatrix %s /Width %d /Height %d …>>image", g.ctm.String(), im.String(), w, h)})
 }
